@@ -1,6 +1,7 @@
 package main
 
 import (
+	"bufio"
 	"database/sql"
 	"encoding/csv"
 	"fmt"
@@ -203,5 +204,77 @@ func terminatedCreate(rep *Report, prop string, big bool, sig syscall.Signal) {
 	}
 	if n != total || missing > 0 {
 		rep.Violate(Violation{Kind: "fault", Signature: prop + ":partial-index-accepted", What: fmt.Sprintf("`updog create` (big=%v) got %v after %d of %d records; it ended with %v and left an output that opens as an index of %d rows (%d of 7 probed records missing)", big, sig, total/2, total, werr, n, missing), Expected: fmt.Sprintf("absent, rejected, or all %d records", total), Actual: fmt.Sprintf("%d rows", n), Case: c})
+	}
+}
+
+// killedDuringFlush: `updog create` (in-memory mode) is killed with SIGKILL while Flush is writing the output (the file
+// exists and is growing). Opening what it left must return — with an error or with the complete index — and must not
+// hang; the path stays usable for the next attempt's diagnostics.
+func killedDuringFlush(rep *Report, prop string) {
+	csvPath := scratch("kill-flush.csv")
+	out := scratch("kill-flush.updog")
+	os.Remove(out)
+	defer os.Remove(csvPath)
+	defer os.Remove(out)
+	const total = 120000
+	{
+		f, err := os.Create(csvPath)
+		if err != nil {
+			infra("csv: %v", err)
+		}
+		w := bufio.NewWriter(f)
+		fmt.Fprintf(w, "id,grp\n")
+		for i := 0; i < total; i++ {
+			fmt.Fprintf(w, "id-%06d,%d\n", i, i%11)
+		}
+		w.Flush()
+		f.Close()
+	}
+	cmd := exec.Command(updogBin, "create", "-o", out, csvPath)
+	cmd.Env = append(os.Environ(), "TMPDIR="+scratchDir)
+	if err := cmd.Start(); err != nil {
+		infra("start create: %v", err)
+	}
+	exited := make(chan error, 1)
+	go func() { exited <- cmd.Wait() }()
+	killed := false
+	deadline := time.Now().Add(60 * time.Second * watchdogScale)
+poll:
+	for time.Now().Before(deadline) {
+		select {
+		case <-exited:
+			break poll
+		default:
+		}
+		if st, err := os.Stat(out); err == nil && st.Size() >= 128<<10 {
+			cmd.Process.Kill()
+			killed = true
+			<-exited
+			break
+		}
+		time.Sleep(2 * time.Millisecond)
+	}
+	if !killed {
+		select {
+		case <-exited:
+		default:
+			cmd.Process.Kill()
+			<-exited
+		}
+		rep.Note("kill-during-flush: the creator finished before it could be killed inside Flush")
+	}
+	rep.Eval("killed-during-flush", killed)
+	rep.Count(fmt.Sprintf("killed-during-flush=%v", killed))
+	idx, _, err := openIdx(out, false, -1)
+	c := map[string]any{"scenario": "SIGKILL during Flush of `updog create`", "records": total}
+	if err != nil {
+		if strings.HasPrefix(err.Error(), "hang") || strings.HasPrefix(err.Error(), "panic") {
+			rep.Violate(Violation{Kind: "fault", Signature: prop + ":partial-open-" + strings.SplitN(err.Error(), ":", 2)[0], What: "opening the output of a creator killed during Flush", Expected: "error, or the complete index", Actual: err.Error(), Case: c})
+		}
+		return
+	}
+	defer idx.Close()
+	if n := int(updog.VerifIndexNextRowID(idx)); n != total {
+		rep.Violate(Violation{Kind: "fault", Signature: prop + ":partial-index-accepted", What: fmt.Sprintf("the output of a creator killed during Flush opens as an index of %d rows", n), Expected: fmt.Sprintf("rejected, or all %d rows", total), Actual: fmt.Sprint(n), Case: c})
 	}
 }
